@@ -784,7 +784,17 @@ func serveFetchV2(_ context.Context, st storage.Storer, w io.WriteCloser, args *
 			_ = w.Close()
 			return true, fmt.Errorf("getting objects to upload: %w", nerr)
 		}
-		clientView, cerr := objectsToUpload(&shallowBoundaryStorer{Storer: st, boundary: clientShallows}, haves, nil)
+		// A have may name a commit this repository has never seen (a local
+		// branch of the client, history fetched from elsewhere). Like the
+		// non-shallow path, which ignores unknown haves, only walk the ones
+		// that exist here instead of failing the whole fetch.
+		knownHaves := make([]plumbing.Hash, 0, len(haves))
+		for _, h := range haves {
+			if st.HasEncodedObject(h) == nil {
+				knownHaves = append(knownHaves, h)
+			}
+		}
+		clientView, cerr := objectsToUpload(&shallowBoundaryStorer{Storer: st, boundary: clientShallows}, knownHaves, nil)
 		if cerr != nil {
 			_ = w.Close()
 			return true, fmt.Errorf("getting client objects: %w", cerr)
